@@ -122,7 +122,11 @@ def build_pass(P, spec, pass_off):
     col_of = {g: i for i, gs in enumerate(cols) for g in gs}
     setcols = {s: {col_of[g] for g in s if g in col_of} for s in allsets}
     start = frozenset((ri, 0) for ri in range(len(rules)))
-    starts = [frozenset((ri, k) for ri in range(len(rules)) if pre - rpre[ri] >= k) for k in range(pre - minpre + 1)]
+    # start state for "k glyphs of the longest pre-context are missing": rules whose own pre-context still fits.  With
+    # P['loose_starts'] (what the GDL compiler emits) every rule enters at item k, the missing glyphs acting as wildcards; the engine
+    # must then reject the rules that need more pre-context than exists (Pass::testConstraint) - both encodings mean the same program.
+    loose = bool(P.get('loose_starts'))
+    starts = [frozenset((ri, k) for ri in range(len(rules)) if loose or pre - rpre[ri] >= k) for k in range(pre - minpre + 1)]
     assert starts[0] == start
     order = [start]
     seen = {start}
